@@ -697,6 +697,17 @@ func (e *Env) evalCall(c *ast.CallExpr) Val {
 		}
 		e.x.d.DeclareFun("strOf", []string{"Ref", "Int", "Int"}, "String")
 		return Val{T: tyString, L: []Term{"(strOf " + v.L[0] + " " + v.L[1] + " " + v.L[2] + ")"}}
+	case "strbefore":
+		// strbefore(s, sep): s up to the first occurrence of sep (all of s if there is none)
+		a, b := e.eval(arg(0)), e.eval(arg(1))
+		idx := "(str.indexof " + a.L[0] + " " + b.L[0] + " 0)"
+		return Val{T: a.T, L: []Term{tIte("(str.contains "+a.L[0]+" "+b.L[0]+")", "(str.substr "+a.L[0]+" 0 "+idx+")", a.L[0])}}
+	case "strafter":
+		// strafter(s, sep): s after the first occurrence of sep ("" if there is none)
+		a, b := e.eval(arg(0)), e.eval(arg(1))
+		idx := "(str.indexof " + a.L[0] + " " + b.L[0] + " 0)"
+		start := "(+ " + idx + " (str.len " + b.L[0] + "))"
+		return Val{T: a.T, L: []Term{tIte("(str.contains "+a.L[0]+" "+b.L[0]+")", "(str.substr "+a.L[0]+" "+start+" (- (str.len "+a.L[0]+") "+start+"))", tStr(""))}}
 	case "strcontains":
 		a, b := e.eval(arg(0)), e.eval(arg(1))
 		return boolVal("(str.contains " + a.L[0] + " " + b.L[0] + ")")
@@ -713,7 +724,7 @@ func (e *Env) evalCall(c *ast.CallExpr) Val {
 		n := *e
 		n.vars = vars
 		n.what = e.what + " / spec fn " + name
-		if sf.Uninterp {
+		if sf.Uninterp || (sf.Opaque && !e.x.reveals(sf.Name)) {
 			rt := e.x.parseType(sf.RetType)
 			var argSorts []string
 			var args []Term
@@ -734,6 +745,29 @@ func (e *Env) evalCall(c *ast.CallExpr) Val {
 		}
 		if sf.Rec {
 			return n.evalRec(sf, vars)
+		}
+		if sf.Opaque {
+			// revealed here: the uninterpreted symbol equals its body
+			rt := e.x.parseType(sf.RetType)
+			var argSorts []string
+			var args []Term
+			for _, p := range sf.Params {
+				v := vars[p.Name]
+				for i, l := range leavesOf(v.T) {
+					argSorts = append(argSorts, l.Sort)
+					args = append(args, v.L[i])
+				}
+			}
+			body := n.coerce(n.eval(sf.Body.Expr), rt)
+			out := Val{T: rt}
+			for i, l := range leavesOf(rt) {
+				uf := fmt.Sprintf("uf_%s_%d", sanitize(sf.Name), i)
+				e.x.d.DeclareFun(uf, argSorts, l.Sort)
+				app := "(" + uf + " " + strings.Join(args, " ") + ")"
+				e.st.assume(tEq(app, body.L[i]))
+				out.L = append(out.L, app)
+			}
+			return out
 		}
 		v := n.eval(sf.Body.Expr)
 		if sf.RetType != "" {
